@@ -50,6 +50,10 @@ def snapshot(con):
     return snap
 
 
+PERSISTENT = ("node", "dep", "file", "step", "step_hash", "dynamic_dep", "env_var", "nglob",
+              "step_resource")
+
+
 def persistent_dump(snap):
     """The persistent part of a snapshot in a comparable form (for atomicity checks)."""
     return {k: snap[k] for k in ("node", "dep", "file", "step", "step_hash", "dynamic_dep",
@@ -58,7 +62,7 @@ def persistent_dump(snap):
 
 class Transaction:
     __slots__ = ("index", "task", "task_name", "nstmt", "changes_before", "writes", "is_pop",
-                 "rolled_back", "off_thread", "foreign_stmt", "request")
+                 "rolled_back", "off_thread", "foreign_stmt", "request", "changed")
 
     def __init__(self, index, task):
         self.index = index
@@ -72,6 +76,7 @@ class Transaction:
         self.off_thread = 0
         self.foreign_stmt = 0
         self.request = None
+        self.changed = None   # whether the persistent tables differ from the previous commit
 
 
 class CommitMonitor:
@@ -168,6 +173,8 @@ class CommitMonitor:
                                                 or self.snapshot_reads):
             snap = snapshot(con)
             self.nwrite_commits += 1
+            if self.prev is not None:
+                tx.changed = any(self.prev[k] != snap[k] for k in PERSISTENT)
         for checker in self.checkers:
             try:
                 checker(self, self.prev, snap, tx)
